@@ -21,6 +21,12 @@ def splitCluster (sign : Char) : Str → List Str × Bool
 
 def signChar (negate : Bool) : Char := if negate then '+' else '-'
 
+/-- `--NAME` (non-empty) / `++NAME`: `some (negate, NAME)` -/
+def longForm : Str → Option (Bool × Str)
+  | '-' :: '-' :: name => if name.isEmpty then none else some (false, name)
+  | '+' :: '+' :: name => some (true, name)
+  | _ => none
+
 /-- Separated spelling for `set` (`long = true`: `--name` / `++name` are also rewritten to
     `-o name` / `+o name`) and for the shell's command line (`long = false`: its long options include
     `--profile=…` etc., which have no `-o` form).  A cluster containing its own sign as a letter is
@@ -41,14 +47,16 @@ def separateSO (long : Bool) : List Str → List Str
       else parts ++ separateSO long rest
     | none =>
       if long then
-        match a with
-        | '-' :: '-' :: name => if name.isEmpty then a :: rest else ['-', 'o'] :: name :: separateSO long rest
-        | '+' :: '+' :: name => ['+', 'o'] :: name :: separateSO long rest
-        | _ => a :: rest
+        match longForm a with
+        | some (negate, name) => [signChar negate, 'o'] :: name :: separateSO long rest
+        | none => a :: rest
       else
         -- a long option of the command line may take the next argument (`--profile x`); it is not
         -- rewritten, and neither is what follows it
         a :: rest
+
+/-- the option letters of `kill` that take no argument -/
+def killFlag (c : Char) : Bool := c = 'l' ∨ c = 'v'
 
 /-- Separated spelling for `kill` while `portable` is off: `-lv` → `-l -v`; `-sX` / `-nX` → `-s X` /
     `-n X` when `X` is a signal specification; `-X` → `-s X` when `X` is one.  Anything else
@@ -59,8 +67,8 @@ def separateKill (nm : Names) : List Str → List Str
     if !killIsOption a ∨ a = ['-', '-'] then a :: rest
     else
       let options := a.drop 1
-      let pre := options.takeWhile (fun c => c = 'l' ∨ c = 'v')
-      let tl := options.dropWhile (fun c => c = 'l' ∨ c = 'v')
+      let pre := options.takeWhile killFlag
+      let tl := options.dropWhile killFlag
       let flags := pre.map fun c => ['-', c]
       match tl with
       | [] => flags ++ separateKill nm rest
